@@ -7,6 +7,7 @@ from canon import coq_fs, coq_str, coq_z, coq_opt, coq_list, coq_cells, coq_res
 ID = "C06"
 LEVEL = "proof"
 PROPS_FILE = "Props/C06.v"
+EXTRA_PROPS = ("Props/C06Tie.v",)
 CORR_VO = "Corr/C06.vo"
 REQUIRE = "From Curtsies Require Import Model.Base Model.Slice Corr.C06."
 CASE_TYPE = "C06.case"
